@@ -172,3 +172,40 @@ Definition all_kinds : list string :=
 
 Lemma dispatch_all : same_kinds dispatch_table = true /\ forallb (row_ok dispatch_table) all_kinds = true.
 Proof. vm_compute. split; reflexivity. Qed.
+
+(* ---------- every creation-reaching call site of every handler is guarded ---------- *)
+Lemma creation_AlterConfigs : sites_ok creation_sites "AlterConfigs" = true. Proof. vm_compute. reflexivity. Qed.
+Lemma creation_ApiVersions : sites_ok creation_sites "ApiVersions" = true. Proof. vm_compute. reflexivity. Qed.
+Lemma creation_CreatePartitions : sites_ok creation_sites "CreatePartitions" = true. Proof. vm_compute. reflexivity. Qed.
+Lemma creation_CreateTopics : sites_ok creation_sites "CreateTopics" = true. Proof. vm_compute. reflexivity. Qed.
+Lemma creation_DeleteGroups : sites_ok creation_sites "DeleteGroups" = true. Proof. vm_compute. reflexivity. Qed.
+Lemma creation_DeleteTopics : sites_ok creation_sites "DeleteTopics" = true. Proof. vm_compute. reflexivity. Qed.
+Lemma creation_DescribeConfigs : sites_ok creation_sites "DescribeConfigs" = true. Proof. vm_compute. reflexivity. Qed.
+Lemma creation_DescribeGroups : sites_ok creation_sites "DescribeGroups" = true. Proof. vm_compute. reflexivity. Qed.
+Lemma creation_Fetch : sites_ok creation_sites "Fetch" = true. Proof. vm_compute. reflexivity. Qed.
+Lemma creation_FindCoordinator : sites_ok creation_sites "FindCoordinator" = true. Proof. vm_compute. reflexivity. Qed.
+Lemma creation_Heartbeat : sites_ok creation_sites "Heartbeat" = true. Proof. vm_compute. reflexivity. Qed.
+Lemma creation_JoinGroup : sites_ok creation_sites "JoinGroup" = true. Proof. vm_compute. reflexivity. Qed.
+Lemma creation_LeaveGroup : sites_ok creation_sites "LeaveGroup" = true. Proof. vm_compute. reflexivity. Qed.
+Lemma creation_ListGroups : sites_ok creation_sites "ListGroups" = true. Proof. vm_compute. reflexivity. Qed.
+Lemma creation_ListOffsets : sites_ok creation_sites "ListOffsets" = true. Proof. vm_compute. reflexivity. Qed.
+Lemma creation_Metadata : sites_ok creation_sites "Metadata" = true. Proof. vm_compute. reflexivity. Qed.
+Lemma creation_OffsetCommit : sites_ok creation_sites "OffsetCommit" = true. Proof. vm_compute. reflexivity. Qed.
+Lemma creation_OffsetFetch : sites_ok creation_sites "OffsetFetch" = true. Proof. vm_compute. reflexivity. Qed.
+Lemma creation_OffsetForLeaderEpoch : sites_ok creation_sites "OffsetForLeaderEpoch" = true. Proof. vm_compute. reflexivity. Qed.
+Lemma creation_Produce : sites_ok creation_sites "Produce" = true. Proof. vm_compute. reflexivity. Qed.
+Lemma creation_SyncGroup : sites_ok creation_sites "SyncGroup" = true. Proof. vm_compute. reflexivity. Qed.
+
+Lemma creation_all : forallb (sites_ok creation_sites) all_kinds = true.
+Proof. vm_compute. reflexivity. Qed.
+
+(* the checker is not vacuous: it rejects an unguarded path to getPartitionLog and a flag that
+   stores a fetch (not produce) verdict, and accepts the guarded shapes *)
+Lemma site_ok_examples :
+  site_ok (codes "h.getPartitionLog", [(codes "allowTopics[x]:ActionFetch", codes "reject")]) = false /\
+  site_ok (codes "h.partitionLog[mayCreate]", [(codes "mayCreate=allowTopic[t]:ActionFetch", codes "flag")]) = false /\
+  site_ok (codes "h.partitionLog[mayCreate]", [(codes "other=allowTopic[t]:ActionProduce", codes "flag")]) = false /\
+  site_ok (codes "h.partitionLog[mayCreate]", [(codes "mayCreate=allowTopic[t]:ActionProduce", codes "flag")]) = true /\
+  site_ok (codes "h.ensureTopic", [(codes "allowTopic[name]:ActionProduce", codes "skip")]) = true /\
+  site_ok (codes "UNGUARDED:h.ensureTopic", [(codes "allowTopic[name]:ActionProduce", codes "skip")]) = false.
+Proof. vm_compute. repeat split. Qed.
